@@ -2,6 +2,7 @@ package worlds
 
 import (
 	"context"
+	"encoding/json"
 	"errors"
 	"fmt"
 	"strings"
@@ -606,6 +607,21 @@ func (w *c12World) fundPhase(c *kernel.RunCtx, s *c12Scenario, tx, model *bt.Tx,
 	var snap []oc
 	for _, o := range tx.Outputs {
 		snap = append(snap, oc{o.Satoshis, append([]byte(nil), *o.LockingScript...), (*[]byte)(o.LockingScript)})
+	}
+	if s.seedBytes[2]%4 == 1 {
+		// other features of the library were used on this transaction first; whatever they cache or touch must
+		// not matter to Fund
+		_ = catch(func() {
+			_ = tx.TxID()
+			_ = tx.Size()
+			_, _ = tx.EstimateSizeWithTypes()
+			_, _ = tx.EstimateFeesPaid(fq)
+			_, _ = tx.IsFeePaidEnough(fq)
+			_ = tx.Clone()
+			_, _ = json.Marshal(tx)
+			_ = tx.ExtendedBytes()
+		})
+		c.Count("probe.other_features_used_before_fund", 1)
 	}
 	priorPtrs := append([]*bt.Input(nil), tx.Inputs...)
 	initDef, initErr := sup.modelDeficit()
